@@ -37,9 +37,14 @@ def run(ctx):
     # schedule / readout mode may change between the runs
     traces = P.sessions(ctx, [], ctx.pick(60, 1200), kinds=("obs", "set", "add"))
     P.validate(ctx, traces, "sessions")
+    from harness import hooks
+    hooks.check(ctx)
     ctx.assumptions += ["times are dyadic rationals (ticks of 1/1024 s) so the float clock arithmetic of the code is exact",
                         "buckets are observed by probe models at entry; prior contents are loaded through the public setters"]
 
 
 def replay(ctx, payload):
+    if payload["case"].get("kind") == "hooktrace":
+        from harness import hooks
+        return hooks.replay(ctx, payload)
     return P.replay_case(ctx, payload)
